@@ -1,4 +1,5 @@
 //@ tu: libxcm/core/xcm_addr.c
+//@ replay: addr_native.py
 //@ enforce: addr_make_ux_uxf
 //@ pre-unwind: strlen.0:9
 //@ props: C12
